@@ -302,8 +302,8 @@ def initial_state(engine, c, fi):
             continue
         f2, sv = engine.fresh_of_type(ty, name)
         facts.items.extend(f2.items)
-        if sv.kind in ("list", "set", "dict"):
-            sv.origin = ("param", name)
+        if sv.kind in ("list", "set", "dict") and kind not in ("kw", "var"):
+            sv.origin = ("param", name)  # *args / **kwargs are fresh containers of the callee: no caller alias
         env[name] = sv
     st = st.copy(env=env).with_facts(facts)
     return st
@@ -368,9 +368,13 @@ def verify_function(engine, c):
         paths += 1
         outcomes.append(out.kind if out.kind != "raise" else f"raise {out.value.cls}")
         k = paths
+        # in postconditions a parameter name denotes the argument's value at entry (parameters are locals: the body may
+        # rebind them, and value-semantics containers are rebound by in-place methods)
+        param_names = [p.arg for p in fi.node.args.posonlyargs + fi.node.args.args + fi.node.args.kwonlyargs] + [x.arg for x in (fi.node.args.vararg, fi.node.args.kwarg) if x is not None]
+        entry_params = {nm: pre.env[nm] for nm in param_names if nm in pre.env}
         if out.kind in ("normal", "return"):
             result = out.value if out.kind == "return" else SV_NONE
-            extra = {"result": result}
+            extra = dict(entry_params, result=result)
             for name, text in list(c.ensures.items()) + [("canary." + n, t) for n, t in c.canary.items()]:
                 g, stg = spec_bool(engine, text, st1, extra=extra, ctx=ctx)
                 engine.oblige(stg, g, f"{fq}:ensures.{name}:path{k}", kind="canary" if name.startswith("canary.") else "ensures", func=fq, clause=f"ensures.{name}", props=c.props_of(f"ensures.{name}"))
@@ -389,7 +393,7 @@ def verify_function(engine, c):
                     w, stg = spec_bool(engine, ent["when"], pre.copy(pc=st1.pc, facts=st1.facts), ctx=ctx)
                     engine.oblige(stg, w, f"{fq}:raises.{ename}.when:path{k}", kind="raises-when", func=fq, clause=f"raises.{ename}.when", props=c.props_of(f"raises.{ename}"))
                 for name, text in ent.get("ensures", {}).items():
-                    g, stg = spec_bool(engine, text, st1, ctx=ctx)
+                    g, stg = spec_bool(engine, text, st1, extra=dict(entry_params), ctx=ctx)
                     engine.oblige(stg, g, f"{fq}:raises.{ename}.ensures.{name}:path{k}", kind="raises-ensures", func=fq, clause=f"raises.{ename}.ensures.{name}", props=c.props_of(f"raises.{ename}.ensures.{name}"))
                 if not ent.get("no_frame"):
                     _frame_obligations(engine, c, fq, pre, st1, ctx, k)
